@@ -265,7 +265,7 @@ theorem failed_state_logs_no_exit (env : Env) (fuel : Nat) (states : Json) (name
     (retries : Nat) (e msg : Str) (st : St)
     (h : decideError ((listOf (fld state "Retry")).map retrierOf) ((listOf (fld state "Catch")).map catcherOf)
       e retries = .uncaught) :
-    (handleErr env (fuel + 1) states name state data ctx retries e msg st).2 = st.fanFailedIf state ∧
+    (handleErr env (fuel + 1) states name state data ctx retries e msg st).2 = (st.fanFailedIf state).failTok ∧
     (isFanOut (stateType state) = false → st.fanFailedIf state = st) ∧
     (isFanOut (stateType state) = true → (st.fanFailedIf state).log = .fanFailed (stateType state) :: st.log) := by
   refine ⟨by simp [handleErr, h], ?_, ?_⟩
